@@ -399,6 +399,19 @@ def _run_matrix(case):
                     viols.append(V("C12:%s:error-attribute:%s" % (cmd, ob["cls"]), "%s: %s names %r" % (what, ob["cls"], e.result), **tag))
             k = "%s:%s" % (_kname(kind).split("(")[0], oc)
             outcomes[k] = outcomes.get(k, 0) + 1
+            # the same command written under its EEMS 2.0 NAME (a file that goes through the EEMS 2.0 conversion): the conversion renames,
+            # it does not repair arguments - same verdict, before anything runs
+            from mpilot.utils import EEMS_COMMANDS
+            old_names = sorted(o for o, n_ in EEMS_COMMANDS.items() if n_ == cmd)
+            if old_names and rk not in ("extra-outfilename", "extra-newfieldname") and not any(pn in ("OutFileName", "NewFieldName") for pn, _k, _r in plist):
+                prog2 = _prefix(libset) + [("T", old_names[0], args)]
+                text2 = G.render(G.items_of(prog2))[0]
+                ob2 = _observe(text2, libs, work)
+                evals += 1
+                tag2 = dict(tag, text=text2, written_as=old_names[0])
+                _judge(exp, ob2, viols, "%s:%s:eems2-name" % (_kname(kind), rk), what + " written as " + old_names[0], tag2)
+                if exp[0] != "unspec":
+                    judged += 1
     finally:
         import shutil
         shutil.rmtree(work, ignore_errors=True)
